@@ -71,7 +71,7 @@ def rdate(rng):
 
 
 def gen_ledger(rng, max_txns=22):
-    n = rng.choice([0, 1, 2, 3, 5, 8, 12, max_txns])
+    n = rng.choice([0, 1, 2, 3, 5, 5, 8, 8, 12, 12, 12, 16, 16, max_txns, max_txns, max_txns])
     dates = sorted(rdate(rng) for _ in range(n))
     txns = []
     lots = []   # [stock, price, cur, date, label, remaining]
@@ -97,7 +97,7 @@ def gen_ledger(rng, max_txns=22):
             m = rng.randint(1, 90)
             a1, a2, a3 = rng.sample(ACCOUNTS, 3)
             posts = [(a1, amt + m, cur, None, None), (a2, -amt, cur, None, None), (a3, -m, cur, None, None)]
-        elif r < 0.68:
+        elif r < 0.66:
             kind = 'buy-lot'
             stk = rng.choice(STOCKS)
             p = rng.randint(2, 60)
@@ -105,7 +105,7 @@ def gen_ledger(rng, max_txns=22):
             label = rng.choice([None, None, 'lot%d' % i])
             posts = [('Assets:Broker', q, stk, (p, cur, None, label), None), ('Assets:Bank', -q * p, cur, None, None)]
             lots.append([stk, p, cur, date, label, q])
-        elif r < 0.80 and any(l[5] > 0 for l in lots):
+        elif r < 0.82 and any(l[5] > 0 for l in lots):
             kind = 'sell-lot'
             lot = rng.choice([l for l in lots if l[5] > 0])
             m = rng.randint(1, lot[5])
